@@ -102,6 +102,21 @@ CHECKS["C23"] = dict(
    design="5/C23", technique="Coq proof of the lifting principle + instances; correspondence by extraction; relative soundness search",
    note="Trusted: Coq kernel; extraction; Model/Lift.v hand-written. Two defects repaired (DSIS.__neg__, StridedInterval.__hash__).")
 
+CHECKS["C24"] = dict(
+   text="Machine-checked proof (Coq), for every expression (any depth, width, operator), any abstract domain and every assignment that "
+        "respects the variables' annotations: bottom-up abstract evaluation with BackendVSA's If rule contains the expression's value "
+        "whenever each operator's transfer function and the join are sound and has_true/has_false are complete (C24_aeval), also after "
+        "ITE excavation as in BackendVSA.convert (C24_convert, using C08's excavation theorem), and for the executable table-driven "
+        "instance (C24_table). Tie: the real BackendVSA.convert runs with its operator applications recorded (run-time wrapper around "
+        "_call); the extracted model replays the evaluation of the excavated tree from that table and must reach the same abstract value. "
+        "Search: every assignment inside the intervals is enumerated with the extracted SMT-LIB evaluator (1-3 variables, width 2-4); a "
+        "missing value is located at the sub-expression where soundness is lost; if that node carries exactly the interval-level result, "
+        "the failure is the transfer function's (C21 known findings, reported as KNOWN-FINDING site=transfer:<op>), otherwise a violation. "
+        "SolverVSA eval/min/max/solution/satisfiable/is_true/is_false/add are checked against the same enumeration.",
+   design="5/C24", technique="Coq proof of abstract-interpretation soundness; recorded-table replay by extraction; exhaustive enumeration search",
+   note="Trusted: Coq kernel; extraction; the run-time recorder. Transfer functions, joins and comparisons are hypotheses (C21/C22). "
+        "Region annotations/value sets and discrete sets at the AST level are covered by C23's check, not here.")
+
 CHECKS["C12"] = dict(
    text="Machine-checked proof (Coq) of the principle SolverComposite rests on, for every set of constraint groups: if the groups share no "
         "variable, the whole is satisfiable iff every group is (C12_sat, by gluing assignments), and the values an expression takes over "
